@@ -30,6 +30,8 @@
 #include "iterators/IteratorDictStringXBW.h"
 #include "iterators/IteratorDictStringXBWDuplicates.h"
 
+#include <sstream>
+
 StringDictionaryXBW::StringDictionaryXBW() {
   this->type = DXBW;
   this->elements = 0;
@@ -128,6 +130,16 @@ StringDictionaryXBW::StringDictionaryXBW(IteratorDictString *it) {
   for (uint i = 0; i < len; i++)
     delete nodes[i];
   delete[] occ;
+
+  // Building the queryable structure from the same arrays that save() writes
+  // (otherwise the dictionary can only be queried after a save/load cycle)
+  std::stringstream tmp(std::ios::in | std::ios::out | std::ios::binary);
+  tmp.write((char *)&len, sizeof(uint));
+  tmp.write((char *)mapping, 257 * sizeof(uint));
+  tmp.write((char *)alpha, len * sizeof(uint));
+  tmp.write((char *)last, (len / W + 1) * sizeof(uint));
+  tmp.write((char *)A, (len / W + 2) * sizeof(uint));
+  xbw = new XBW(tmp);
 }
 
 unsigned long StringDictionaryXBW::locate(uchar *str, uint strLen) {
